@@ -45,21 +45,24 @@ template <integral Int, from_integer_options Options = from_integer_options{}>
     bool isNegative = false;
     if constexpr (is_signed_v<Int>) {
         if (num < 0 and base == 10) {
+            if (length <= i + 1) {
+                return {.end = str + length, .error = from_integer_error::overflow};
+            }
             isNegative = true;
             str[i++]   = '-';
         }
     }
 
     while (num != 0) {
+        if (length <= i + 1) {
+            return {.end = str + length, .error = from_integer_error::overflow};
+        }
+
         auto const [quot, rem] = etl::idiv(num, static_cast<Int>(base));
         auto const digit       = static_cast<char>(etl::abs(rem));
 
         str[i++] = (digit > 9) ? (digit - 10) + 'a' : digit + '0';
         num      = quot;
-
-        if (length <= i) {
-            return {.end = nullptr, .error = from_integer_error::overflow};
-        }
     }
 
     etl::reverse(str + static_cast<size_t>(isNegative), str + i);
